@@ -182,7 +182,10 @@ pub fn run_schedule(notes: usize, acts: &[Act]) -> Outcome2 {
     let (server_tx, from_server): (Sender<Message>, Receiver<Message>) = unbounded();
     let state: HashMap<String, String> = (0..notes).map(|n| (note_key(n), note_text(n, notes, 0))).collect();
     let router = Router::new(server_tx, ServerConfig { base_path: "/lib".to_string(), state, sequential_ids: Some(true), configuration: Configuration::default(), lsp_client: LspClient::Unknown });
-    let handle = std::thread::spawn(move || router.run(server_rx).is_ok());
+    let (done_tx, done_rx) = unbounded::<bool>();
+    std::thread::spawn(move || {
+        let _ = done_tx.send(router.run(server_rx).is_ok());
+    });
     let send = |m: &Msg| match m {
         Msg::Req { id, note, outcome } => {
             let (method, params) = match outcome {
@@ -286,7 +289,8 @@ pub fn run_schedule(notes: usize, acts: &[Act]) -> Outcome2 {
         final_hints.push(got);
     }
     to_server.send(Message::Notification(Notification { method: "exit".to_string(), params: json!(null) })).unwrap();
-    let loop_result_ok = handle.join().unwrap_or(false);
+    // a loop blocked behind a handler that never returns does not end on `exit`: a verdict, not a reason to wait for ever
+    let loop_result_ok = done_rx.recv_timeout(Duration::from_secs(30)).unwrap_or(false);
     while let Ok(m) = from_server.try_recv() {
         inbox.push(m);
     }
